@@ -221,29 +221,32 @@ impl<'a> Model<'a> {
                 if coerce.is_some() {
                     self.probes.insert("recurse_implicit_coercion");
                 }
-                let mut levels: Vec<Vec<u32>> = vec![vec![sv]];
-                let mut total = 1usize;
-                for k in 0..(*d as usize) {
-                    let mut next = vec![];
-                    for w in &levels[k] {
+                // Depth-first pre-order over walks of length 0..d (one entry per walk).
+                let mut order: Vec<u32> = vec![];
+                let mut stack: Vec<(u32, usize)> = vec![(sv, 0)];
+                while let Some((w, k)) = stack.pop() {
+                    order.push(w);
+                    if order.len() > self.cap {
+                        self.overflow = true;
+                        return vec![];
+                    }
+                    if k < *d as usize {
                         let can_continue = k == 0
                             || match coerce {
                                 None => true,
-                                Some(x) => self.world.is_instance(*w, x),
+                                Some(x) => self.world.is_instance(w, x),
                             };
                         if can_continue {
-                            next.extend(self.world.neighbors(*w, &e.name, &params));
+                            let ns = self.world.neighbors(w, &e.name, &params);
+                            for u in ns.into_iter().rev() {
+                                stack.push((u, k + 1));
+                            }
                         } else {
                             self.probes.insert("recurse_stopped_by_implicit_coercion");
                         }
                     }
-                    total += next.len();
-                    if total > self.cap {
-                        self.overflow = true;
-                        return vec![];
-                    }
-                    levels.push(next);
                 }
+                let levels = vec![order];
                 let mut seen = BTreeSet::new();
                 for u in levels.iter().flatten() {
                     if !seen.insert(*u) {
